@@ -108,7 +108,8 @@ def color_chunk(args):
                 except Exception as e:
                     fails.append({'kind': 'python_to_sdocs-raises', 'value': repr(value)[:200], 'exc': type(e).__name__})
                     continue
-            req = '(cpformat %s %s)' % (val_to_sx(value), settings_sx(*st))
+            import sec_stdlib
+            req = '(cpformat %s %s)' % (sec_stdlib.sx(value), settings_sx(*st))
         else:
             _, d, w = case
             sd = list(layout_smart(DOCS.to_py(d), width=w))
@@ -185,6 +186,19 @@ def color_section(tier, seed):
     import subclasses as S
     for _ in range(10 if tier == 'quick' else 100):
         vals.append(sec_values.rand_call(rng))
+    # every kind of token a bundled printer emits must have a style: instances of the stdlib types (Enum members are written by
+    # classattr, timezone.utc by identifier, classes and functions with their comments), skipping those that do not pickle
+    import sec_stdlib
+    import pickle
+    inst = []
+    for x in sec_stdlib.instances(rng):
+        try:
+            pickle.dumps(x)
+            inst.append(x)
+        except Exception:
+            pass
+    core_inst = [x for x in inst if type(x).__name__ in ('Color', 'Flag', 'timezone', 'UUID', 'partial', 'date')][:8]
+    vals = vals[:8] + core_inst + vals[8:] + (rng.sample(inst, 25) if tier == 'quick' else inst) + [int, len, [sec_stdlib.a_function]]
     for v in vals:
         for w in ([79, 20] if tier == 'quick' else [79, 40, 20, 8]):
             if V.ribbon_ok(w, w):
